@@ -239,6 +239,9 @@ mod sim {
         Running,
         BlockedOn(usize),
         Finished,
+        /// running outside the scheduler's control: it did not reach a scheduling point for
+        /// `stall_ms` (blocked on something the seam does not see), so others were let run
+        Detached,
     }
 
     enum Decider {
@@ -285,6 +288,8 @@ mod sim {
         n_context_switches: u64,
         last_run: Option<usize>,
         tree_prefix: String,
+        progress: u64,
+        degraded: u64,
     }
 
     impl St {
@@ -317,6 +322,9 @@ mod sim {
                 .collect();
             if enabled.is_empty() {
                 self.current = None;
+                if self.th.iter().any(|t| *t == Th::Detached) {
+                    return; // somebody is still running on its own; it will come back
+                }
                 if self.th.iter().any(|t| *t != Th::Finished) {
                     self.stop = Some("deadlock");
                 }
@@ -375,8 +383,13 @@ mod sim {
         /// Gives up the processor at a scheduling point and waits to be chosen again.
         fn park(&self, tid: usize, new_state: Th) {
             let mut st = self.m.lock().unwrap_or_else(|p| p.into_inner());
+            let was_detached = st.th[tid] == Th::Detached;
             st.th[tid] = new_state;
-            st.pick_next();
+            st.progress += 1;
+            if !was_detached || st.current.is_none() {
+                // I hold the baton (or nobody does): pass it on
+                st.pick_next();
+            }
             self.cv.notify_all();
             loop {
                 if st.stop.is_some() {
@@ -406,8 +419,12 @@ mod sim {
         fn finish(&self, tid: usize) {
             let mut st = self.m.lock().unwrap_or_else(|p| p.into_inner());
             st.ev(tid, "finish".into());
+            let was_detached = st.th[tid] == Th::Detached;
             st.th[tid] = Th::Finished;
-            st.pick_next();
+            st.progress += 1;
+            if !was_detached || st.current.is_none() {
+                st.pick_next();
+            }
             self.cv.notify_all();
         }
         fn event(&self, tid: usize, what: String) {
@@ -495,6 +512,11 @@ mod sim {
                 tid,
                 format!("{} {} w{}", if panicking { "relP" } else { "rel" }, n, waiters),
             );
+            if st.current.is_none() && st.stop.is_none() && waiters > 0 {
+                // released by a detached thread while everybody else was blocked
+                st.pick_next();
+                self.0.cv.notify_all();
+            }
         }
         fn fault_point(&self, site: &'static str, path: &std::path::Path) -> Option<std::io::Error> {
             let tid = Sched::me()?;
@@ -582,7 +604,7 @@ mod sim {
                 enabled_counts: vec![],
                 events: vec![],
                 steps: 0,
-                max_steps: plan["max_steps"].as_u64().unwrap_or(5000) as usize,
+                max_steps: plan["max_steps"].as_u64().unwrap_or(400) as usize,
                 stop: None,
                 mutexes: vec![],
                 holder: vec![],
@@ -599,6 +621,8 @@ mod sim {
                 n_context_switches: 0,
                 last_run: None,
                 tree_prefix: plan["tree_prefix"].as_str().unwrap_or("").to_string(),
+                progress: 0,
+                degraded: 0,
             }),
             cv: Condvar::new(),
         });
@@ -649,12 +673,31 @@ mod sim {
             }
             st.pick_next();
             sched.cv.notify_all();
-            // wait for the end of the run
+            // wait for the end of the run; main doubles as the watchdog for blocking that the
+            // seam cannot see (the only place a real clock is read, and only to *detach* a thread)
+            let stall = std::time::Duration::from_millis(plan["stall_ms"].as_u64().unwrap_or(400));
+            let mut seen = (st.progress, std::time::Instant::now());
             loop {
                 if st.stop.is_some() || st.th.iter().all(|t| *t == Th::Finished) {
                     break;
                 }
-                st = sched.cv.wait(st).unwrap();
+                let (g, _) = sched.cv.wait_timeout(st, std::time::Duration::from_millis(100)).unwrap();
+                st = g;
+                if st.progress != seen.0 {
+                    seen = (st.progress, std::time::Instant::now());
+                } else if seen.1.elapsed() >= stall {
+                    if let Some(t) = st.current {
+                        if st.th[t] == Th::Running {
+                            st.th[t] = Th::Detached;
+                            st.degraded += 1;
+                            st.ev(t, "DETACHED (no scheduling point reached; blocked outside the seam?)".into());
+                            st.progress += 1;
+                            st.pick_next();
+                            sched.cv.notify_all();
+                        }
+                    }
+                    seen = (st.progress, std::time::Instant::now());
+                }
             }
         }
         let st = sched.m.lock().unwrap();
@@ -674,6 +717,7 @@ mod sim {
             "seam": true,
             "simulated": true,
             "stop": stopped,
+            "degraded": st.degraded,
             "outcomes": res.iter().map(|t| t.iter().map(|o| match o { Some(o) => o.to_json(dump), None => Value::Null }).collect::<Vec<_>>()).collect::<Vec<_>>(),
             "decisions": st.decisions,
             "enabled": st.enabled_counts,
